@@ -35,6 +35,20 @@ class write_only_after_success:
     }
 
 
+@contract("nanoemoji.nanoemoji._run", props=["C06", "C19"])
+class cli_reuse_enabled_and_disabled:
+    bounded_only = True
+    gen = X.gen_cli_reuse
+    native_call = X.run_cli_reuse
+    n_quick = 4
+    n_thorough = 40
+    ensures = {
+        # through the real command line (its part-file steps included): a positive tolerance
+        # and the documented -1 both build, and both fonts paint the sources
+        "both-build-and-paint-the-sources": lambda fmt, glyphs, tolerances, result: X.cli_reuse_problems(fmt, glyphs, tolerances, result) == [],
+    }
+
+
 # ---------------------------------------------------------------------------- C04
 
 
